@@ -46,6 +46,33 @@ def single_assignments(fn: ast.FunctionDef) -> dict[str, ast.AST]:
     return {k: v for k, v in values.items() if counts.get(k) == 1 and k not in params}
 
 
+def last_assignments(fn: ast.FunctionDef) -> dict[str, ast.AST]:
+    """single_assignments plus names that are only ever assigned by plain top-level statements of the function body
+    (e.g. `size = None` followed later by `size = node.value_size`): the last such assignment is what later code sees."""
+    env = single_assignments(fn)
+    params = {a.arg for a in fn.args.posonlyargs + fn.args.args + fn.args.kwonlyargs}
+    top: dict[str, ast.AST] = {}
+    nested: set[str] = set()
+    for st in fn.body:
+        if isinstance(st, ast.Assign) and len(st.targets) == 1 and isinstance(st.targets[0], ast.Name):
+            top[st.targets[0].id] = st.value
+        elif isinstance(st, ast.AnnAssign) and isinstance(st.target, ast.Name) and st.value is not None:
+            top[st.target.id] = st.value
+        else:
+            for n in ast.walk(st):
+                if isinstance(n, (ast.Assign, ast.AugAssign, ast.AnnAssign, ast.For)):
+                    tl = n.targets if isinstance(n, ast.Assign) else [n.target]
+                    for t in tl:
+                        for x in ast.walk(t):
+                            if isinstance(x, ast.Name):
+                                nested.add(x.id)
+    for k, v in top.items():
+        if k not in nested and k not in params:
+            env.setdefault(k, v)
+            env[k] = v
+    return env
+
+
 def inline(expr: ast.AST, env: dict[str, ast.AST], depth: int = 8) -> ast.AST:
     """Substitute single-assignment locals into expr (copy)."""
 
